@@ -257,6 +257,8 @@ def run(ctx):
         for i, (fa, fb) in enumerate([(0, 5), (5, 0), (1, 3), (2, 4)] if ctx.quick else [(a, b) for a in range(N_POOL) for b in range(N_POOL) if a != b][::3]):
             e = ["cpp", "py", "read", "read_cpp", "read_py"][i % 5] if not ctx.quick else ["cpp", "py"][i % 2]
             jobs.append(([[fa, e], [fb, e], [fa, e]], 0, "A-B-A"))
+        for e in (["py", "cpp"] if ctx.quick else ENTRIES):
+            jobs.append(([[3, e], [1, e]], 0, "spline-then-no-constants"))      # file 3 has spline constants, file 1 has no constant line at all
         if not ctx.quick:
             for i, tr in enumerate(itertools.permutations(range(3), 3)):
                 jobs.append(([[f, ENTRIES[(i + k) % 5]] for k, f in enumerate(tr)], 0, "triples"))
